@@ -525,6 +525,7 @@ enum AggFn {
 struct Agg {
     f: AggFn,
     arg: Ex,
+    distinct: bool,
 }
 #[derive(Clone, Debug)]
 enum Ret {
@@ -646,7 +647,7 @@ impl Query {
                         AggFn::Max => "AMax",
                         AggFn::Collect => "ACollect",
                     };
-                    format!("mkAgg {f} (Some {}) false None", a.arg.coq())
+                    format!("mkAgg {f} (Some {}) {} None", a.arg.coq(), a.distinct)
                 }))
             ),
         };
@@ -716,7 +717,7 @@ impl Query {
                         AggFn::Max => "max",
                         AggFn::Collect => "collect",
                     };
-                    parts.push(format!("{f}({})", a.arg.text()));
+                    parts.push(format!("{f}({}{})", if a.distinct { "DISTINCT " } else { "" }, a.arg.text()));
                 }
                 s.push_str(&parts.join(", "));
             }
@@ -1004,7 +1005,7 @@ fn c08_ks(st: &str, q: &str, lang: Lang, plan: Option<&str>) -> (Vec<String>, St
     let mut t = format!(
         "let st := {st} in let q := {q} in [k1_unbounded q; k2_type_case st q; k3_both_selfloop st q; k4_zero_hops q; \
          k5_return_distinct q; k6_gql_limit_first {} q; k7_multi_label q; k10_edge_prop_materialised q; \
-         k9_cypher_order_cols {} q; k12_cypher_count {} q; k13_typed_result q",
+         k9_cypher_order_cols {} q; k12_cypher_count {} q; k13_typed_result st q",
         lang.coq(),
         lang.coq(),
         lang.coq()
@@ -1019,10 +1020,10 @@ fn c08_ks(st: &str, q: &str, lang: Lang, plan: Option<&str>) -> (Vec<String>, St
 }
 fn c10_ks(st: &str, plan: &str) -> (Vec<String>, String) {
     (
-        ["C10-K1", "C10-K2", "C10-K3", "C10-K4", "C10-K5", "C10-K6", "C10-K7"].iter().map(|s| s.to_string()).collect(),
+        ["C10-K1", "C10-K2", "C10-K3", "C10-K4", "C10-K5", "C10-K6", "C10-K7", "C10-K8", "C10-K9"].iter().map(|s| s.to_string()).collect(),
         format!(
             "let st := {st} in let p := {plan} in [k_zone_edge st p; k_index_residual st p; k_index_num st p; \
-             k_range_num st p; k_fact_missing_level st p; k_fact_type_case st p; k_fact_not_path p]"
+             k_range_num st p; k_fact_missing_level st p; k_fact_type_case st p; k_fact_not_path p; k_fact_agg_distinct p; k_zone_ne st p]"
         ),
     )
 }
@@ -1093,6 +1094,9 @@ fn gen_graph(r: &mut Rng, tier_big: bool) -> Vec<Op> {
         if !r.chance(3, 10) {
             props.push(("y".into(), V::Int(r.range(0, 9))));
         }
+        if r.chance(1, 4) {
+            props.push(("b".into(), V::Bool(r.chance(1, 2))));
+        }
         match node_w {
             2 => props.push(("w".into(), V::Int(r.range(0, 3)))),
             3 => props.push(("w".into(), V::Int(r.range(10, 20)))),
@@ -1151,6 +1155,7 @@ fn gen_lit(r: &mut Rng, key: &str) -> V {
     match key {
         "u" => V::Int(100 + r.range(0, 12)),
         "eu" => V::Int(500 + r.range(0, 20)),
+        "b" => V::Bool(r.chance(1, 2)),
         "x" => match r.below(10) {
             0..=5 => V::Int(r.range(0, 5)),
             6 | 7 => V::Half(r.range(0, 10)),
@@ -1299,7 +1304,8 @@ fn gen_query(r: &mut Rng, w: &World) -> Query {
                 AggFn::Sum | AggFn::Avg => Ex::Prop(v, if use_edge { (*r.pick(&["w", "eu"])).into() } else { (*r.pick(&["y", "u", "w"])).into() }),
                 _ => Ex::Prop(v, if use_edge { "w".into() } else { (*r.pick(&["x", "y", "w"])).into() }),
             };
-            aggs.push(Agg { f, arg });
+            let distinct = f == AggFn::Count && r.chance(1, 6);
+            aggs.push(Agg { f, arg, distinct });
         }
         q.ret = Ret::Agg(keys, aggs);
     }
@@ -1554,6 +1560,35 @@ fn c08_corpus(sink: &mut Sink) {
     q8.wher = Some(Ex::Cmp(Cmp::Gt, Box::new(Ex::Prop("r".into(), "w".into())), Box::new(Ex::Lit(V::Int(5)))));
     q8.ret = plain(vec![Ex::Var("a".into()), Ex::Var("b".into())]);
     c08_case(sink, &w, &q8, "c08w-k8", &["corpus".into()]);
+    // K9 / K12 / K13 and the repaired K11 on one graph
+    let ops = vec![
+        Op::Node(vec!["A".into()], vec![("u".into(), V::Int(100)), ("x".into(), V::Str("b".into())), ("y".into(), V::Int(5))]),
+        Op::Node(vec!["A".into()], vec![("u".into(), V::Int(101)), ("x".into(), V::Str("a".into()))]),
+        Op::Node(vec!["B".into()], vec![("u".into(), V::Int(102)), ("x".into(), V::Half(2)), ("y".into(), V::Int(9))]),
+        Op::Edge(0, 1, "R".into(), vec![("eu".into(), V::Int(500)), ("w".into(), V::Int(1))]),
+        Op::Edge(1, 2, "R".into(), vec![("eu".into(), V::Int(501)), ("w".into(), V::Int(2))]),
+    ];
+    let w = mk_world(&ops, true);
+    let single = Query { start: np("a", &["A"]), hops: vec![], wher: None, ret: plain(vec![Ex::Var("a".into())]), order: vec![], skip: None, limit: None };
+    let mut q9 = single.clone();
+    q9.order = vec![(Ex::Prop("a".into(), "u".into()), false)];
+    c08_case(sink, &w, &q9, "c08w-k9", &["corpus".into()]);
+    let mut q12 = single.clone();
+    q12.ret = Ret::Agg(vec![], vec![Agg { f: AggFn::Count, arg: Ex::Prop("a".into(), "y".into()), distinct: false }]);
+    c08_case(sink, &w, &q12, "c08w-k12", &["corpus".into()]);
+    let mut q13 = single.clone();
+    q13.ret = Ret::Agg(vec![], vec![Agg { f: AggFn::Min, arg: Ex::Prop("a".into(), "x".into()), distinct: false }]);
+    c08_case(sink, &w, &q13, "c08w-k13", &["corpus".into()]);
+    let mut q13b = single.clone();
+    q13b.start = np("a", &[]);
+    q13b.ret = Ret::Agg(vec![Ex::Prop("a".into(), "y".into())], vec![Agg { f: AggFn::Max, arg: Ex::Prop("a".into(), "x".into()), distinct: false }]);
+    c08_case(sink, &w, &q13b, "c08w-k13", &["corpus".into()]);
+    // K11 (repaired by df57ccb): a WHERE filter stacked on the label filter of the target; must pass now
+    let mut q11 = base.clone();
+    q11.hops[0].to = np("b", &["B"]);
+    q11.wher = Some(Ex::Cmp(Cmp::Eq, Box::new(Ex::Prop("a".into(), "u".into())), Box::new(Ex::Lit(V::Int(100)))));
+    q11.ret = plain(vec![Ex::Var("b".into())]);
+    c08_case(sink, &w, &q11, "c08w-k11-fixed", &["corpus".into()]);
 }
 
 fn main() {
@@ -1724,6 +1759,9 @@ fn render_gremlin(q: &Query) -> Option<String> {
                 return None;
             }
             let a = &aggs[0];
+            if a.distinct {
+                return None;
+            }
             match (&a.f, &a.arg) {
                 (AggFn::Count, Ex::Var(v)) if *v == last => s.push_str(".count()"),
                 (f, Ex::Prop(v, k)) if *v == last && *f != AggFn::Count && *f != AggFn::Collect => {
@@ -1872,10 +1910,10 @@ fn simplify(r: &mut Rng, q: &mut Query, mode: u64) {
         q.ret = match r.below(10) {
             0..=2 => Ret::Plain(vec![Ex::Var(last)], r.chance(1, 4)),
             3..=6 => Ret::Plain(vec![Ex::Prop(last, (*r.pick(&["u", "x", "y", "w"])).to_string())], r.chance(1, 4)),
-            7 => Ret::Agg(vec![], vec![Agg { f: AggFn::Count, arg: Ex::Var(last) }]),
+            7 => Ret::Agg(vec![], vec![Agg { f: AggFn::Count, arg: Ex::Var(last), distinct: false }]),
             _ => Ret::Agg(
                 vec![],
-                vec![Agg { f: *r.pick(&[AggFn::Sum, AggFn::Min, AggFn::Max, AggFn::Avg]), arg: Ex::Prop(last, (*r.pick(&["y", "u", "w"])).to_string()) }],
+                vec![Agg { f: *r.pick(&[AggFn::Sum, AggFn::Min, AggFn::Max, AggFn::Avg]), arg: Ex::Prop(last, (*r.pick(&["y", "u", "w"])).to_string()), distinct: false }],
             ),
         };
         if q.hops.is_empty() && matches!(q.ret, Ret::Plain(_, false)) && r.chance(1, 3) {
@@ -2054,9 +2092,7 @@ fn c10_range(sink: &mut Sink, r: &mut Rng, ops: &[Op]) {
     q.limit = None;
     q.ret = plain_ret(r, &q);
     let a = q.start.var.clone();
-    let key = *r.pick(&["x", "x", "y", "w", "u"]);
-    let lit = || -> Ex { Ex::Lit(V::Null) };
-    let _ = lit;
+    let key = *r.pick(&["x", "x", "x", "y", "y", "w", "w", "u", "u", "b"]);
     let rng_leaf = |r: &mut Rng, ops: &[Cmp]| {
         let op = *r.pick(ops);
         let l = Ex::Lit(gen_lit(r, key));
@@ -2125,8 +2161,13 @@ fn c10_zone(sink: &mut Sink, r: &mut Rng, ops: &[Op]) {
     let evars: Vec<String> = q.hops.iter().filter_map(|h| h.evar.clone()).collect();
     let nvars = q.vars_node();
     let var = if on_edge { r.pick(&evars).clone() } else { r.pick(&nvars).clone() };
-    let op = *r.pick(&[Cmp::Gt, Cmp::Ge, Cmp::Lt, Cmp::Le, Cmp::Eq, Cmp::Ne]);
-    let leaf = Ex::Cmp(op, Box::new(Ex::Prop(var, "w".into())), Box::new(Ex::Lit(V::Int(r.range(0, 22)))));
+    let op = *r.pick(&[Cmp::Gt, Cmp::Ge, Cmp::Lt, Cmp::Le, Cmp::Eq, Cmp::Ne, Cmp::Ne]);
+    let leaf = if !on_edge && r.chance(1, 3) {
+        // the heterogeneous column x (Int / Float / String values, often few of them)
+        Ex::Cmp(op, Box::new(Ex::Prop(var, "x".into())), Box::new(Ex::Lit(gen_lit(r, "x"))))
+    } else {
+        Ex::Cmp(op, Box::new(Ex::Prop(var, "w".into())), Box::new(Ex::Lit(V::Int(r.range(0, 22)))))
+    };
     q.wher = Some(match r.below(4) {
         0 => Ex::And(Box::new(leaf), Box::new(gen_leaf(r, &nvars, &evars))),
         1 => Ex::Or(Box::new(leaf), Box::new(gen_leaf(r, &nvars, &evars))),
@@ -2168,8 +2209,8 @@ fn c10_zone(sink: &mut Sink, r: &mut Rng, ops: &[Op]) {
             .collect()
     } else {
         let mut o = ops1.clone();
-        o.push(Op::Node(vec!["Z".into()], vec![("w".into(), V::Int(-1000)), ("u".into(), V::Int(9000))]));
-        o.push(Op::Node(vec!["Z".into()], vec![("w".into(), V::Int(1000)), ("u".into(), V::Int(9001))]));
+        o.push(Op::Node(vec!["Z".into()], vec![("w".into(), V::Int(-1000)), ("x".into(), V::Int(-1000)), ("u".into(), V::Int(9000))]));
+        o.push(Op::Node(vec!["Z".into()], vec![("w".into(), V::Int(1000)), ("x".into(), V::Int(1000)), ("u".into(), V::Int(9001))]));
         o
     };
     let w2 = World::build(true, &ops2);
@@ -2224,7 +2265,10 @@ fn c10_fact(sink: &mut Sink, r: &mut Rng, ops: &[Op]) {
     let evars: Vec<String> = q.hops.iter().filter_map(|h| h.evar.clone()).collect();
     q.wher = if r.chance(1, 2) { Some(gen_pred(r, &nvars, &evars)) } else { None };
     q.ret = match r.below(4) {
-        0 => Ret::Agg(vec![], vec![Agg { f: AggFn::Count, arg: Ex::Var(r.pick(&nvars).clone()) }]),
+        0 => {
+            let d = r.chance(1, 3);
+            Ret::Agg(vec![], vec![Agg { f: AggFn::Count, arg: Ex::Var(r.pick(&nvars).clone()), distinct: d }])
+        }
         _ => plain_ret(r, &q),
     };
     let lang = if r.chance(3, 4) { Lang::Gql } else { Lang::Cypher };
@@ -2364,6 +2408,56 @@ fn c10_corpus(sink: &mut Sink, r: &mut Rng) {
         c10_rec(sink, "c10w-k4", &w, Lang::Gql, "p AND p", &generic, "Bag", None, false, &["corpus".into()]);
         let (run, _) = run_one(&w, Lang::Gql, "MATCH (n:A) WHERE n.x > 0 RETURN n", None);
         c10_rec(sink, "c10w-k4", &w, Lang::Gql, "MATCH (n:A) WHERE n.x > 0 RETURN n", &run, "Bag", Some(("range path vs generic filter", &generic.obs)), true, &["corpus".into()]);
+    }
+    // K4 (Bool): the range path compares booleans, the filter does not
+    {
+        let ops = vec![
+            Op::Node(vec!["A".into()], vec![("u".into(), V::Int(100)), ("b".into(), V::Bool(true))]),
+            Op::Node(vec!["A".into()], vec![("u".into(), V::Int(101)), ("b".into(), V::Bool(false))]),
+            Op::Node(vec!["A".into()], vec![("u".into(), V::Int(102))]),
+        ];
+        let w = World::build(true, &ops);
+        let (generic, _) = run_one(&w, Lang::Gql, "MATCH (n:A) WHERE (n.b >= false AND n.b >= false) RETURN n", None);
+        c10_rec(sink, "c10w-k4b", &w, Lang::Gql, "p AND p", &generic, "Bag", None, false, &["corpus".into()]);
+        let (run, _) = run_one(&w, Lang::Gql, "MATCH (n:A) WHERE n.b >= false RETURN n", None);
+        c10_rec(sink, "c10w-k4b", &w, Lang::Gql, "MATCH (n:A) WHERE n.b >= false RETURN n", &run, "Bag", Some(("range path vs generic filter", &generic.obs)), true, &["corpus".into()]);
+    }
+    // K9: <> pruned by min = max = literal although the column holds a string and a NULL
+    {
+        let ops = vec![
+            Op::Node(vec!["A".into()], vec![("u".into(), V::Int(100)), ("w".into(), V::Int(5))]),
+            Op::Node(vec!["A".into()], vec![("u".into(), V::Int(101)), ("w".into(), V::Str("a".into()))]),
+            Op::Node(vec!["A".into()], vec![("u".into(), V::Int(102)), ("w".into(), V::Null)]),
+            Op::Node(vec!["A".into()], vec![("u".into(), V::Int(103))]),
+        ];
+        let text = "MATCH (n:A) WHERE n.w <> 5 RETURN n";
+        let mut ops2 = ops.clone();
+        ops2.push(Op::Node(vec!["Z".into()], vec![("u".into(), V::Int(900)), ("w".into(), V::Int(7))]));
+        let w2 = World::build(true, &ops2);
+        let (reference, _) = run_one(&w2, Lang::Gql, text, None);
+        c10_rec(sink, "c10w-k9", &w2, Lang::Gql, text, &reference, "Bag", None, false, &["corpus".into()]);
+        let w1 = World::build(true, &ops);
+        let (run, _) = run_one(&w1, Lang::Gql, text, None);
+        c10_rec(sink, "c10w-k9", &w1, Lang::Gql, text, &run, "Bag", Some(("column min/max tight vs widened by an unrelated node", &reference.obs)), true, &["corpus".into()]);
+    }
+    // K8: count(DISTINCT a) over a two-hop chain
+    {
+        let ops = vec![
+            Op::Node(vec!["A".into()], vec![("u".into(), V::Int(100))]),
+            Op::Node(vec!["A".into()], vec![("u".into(), V::Int(101))]),
+            Op::Node(vec!["B".into()], vec![("u".into(), V::Int(102))]),
+            Op::Node(vec!["B".into()], vec![("u".into(), V::Int(103))]),
+            Op::Edge(0, 1, "R".into(), vec![]),
+            Op::Edge(1, 2, "R".into(), vec![]),
+            Op::Edge(1, 3, "R".into(), vec![]),
+        ];
+        let text = "MATCH (a)-[r]->(b)-[s]->(c) RETURN count(DISTINCT a)";
+        let woff = World::build(false, &ops);
+        let (flat, _) = run_one(&woff, Lang::Gql, text, None);
+        c10_rec(sink, "c10w-k8", &woff, Lang::Gql, text, &flat, "Bag", None, false, &["corpus".into()]);
+        let won = World::build(true, &ops);
+        let (run, _) = run_one(&won, Lang::Gql, text, None);
+        c10_rec(sink, "c10w-k8", &won, Lang::Gql, text, &run, "Bag", Some(("factorized execution on vs off", &flat.obs)), true, &["corpus".into()]);
     }
     // K5 / K6: factorized chain with an empty level / case-differing type at the second step
     let ops = vec![
